@@ -174,6 +174,42 @@ static void sem_tasks()
     final_check(sem, L, T);
 }
 
+// directed: two tasks blocked in acquire() on an empty semaphore, then two permits released - by two
+// back-to-back release(1) calls of one task, by one release(2), or by release(1) calls of two tasks.
+// The second release may come before the waiter woken by the first has consumed its permit.
+template <typename Sem>
+static void sem_two_blocked()
+{
+    Ledger L;
+    g_ledger = &L;
+    L.c = 0;
+    int form = pmc_choose(3, 0);
+    int wait_blocked = pmc_choose(2, 0);    // releasers wait until both acquirers are inside acquire()
+    Sem sem(0);
+    pmc_watch(&sem, sizeof sem, "semaphore");
+    pmc_on_stuck(on_stuck);
+    rt::start();
+    for (int t = 0; t < 2; ++t)
+        rt::spawn([&, t] {
+            rt::watch_self(t == 0 ? "task0" : "task1");
+            do_op(sem, L, ACQ);
+            ++L.finished;
+        });
+    auto releaser = [&](int nops, int op) {
+        return [&, nops, op] {
+            if (wait_blocked) { int guard = 0; while (L.in_acquire < 2 && ++guard < 200) pika::this_thread::yield(); }
+            for (int i = 0; i < nops; ++i) do_op(sem, L, op);
+            ++L.finished;
+        };
+    };
+    int T = 3;
+    if (form == 0) rt::spawn(releaser(2, REL1));
+    else if (form == 1) rt::spawn(releaser(1, REL2));
+    else { rt::spawn(releaser(1, REL1)); rt::spawn(releaser(1, REL1)); T = 4; }
+    rt::stop();
+    final_check(sem, L, T);
+}
+
 // same programs on plain OS threads (no runtime): untimed ops only
 template <typename Sem, int T, int ALPHA, int CMAX>
 static void sem_os()
@@ -292,10 +328,11 @@ int main(int argc, char** argv)
     static const pmc_spec specs[] = {
         {"sem_seq", sem_sequential, 0, 0, 0.05, 0.03, 0, "sequential histories depth<=4 (data choices)", nullptr, nullptr},
         {"sem_timed_pair", sem_tasks<pika::counting_semaphore<>, 2, 1, 5, 1>, 1, 2, 0.2, 0.15, 1, focus, nullptr, nullptr},
-        {"sem_3x1", sem_tasks<pika::counting_semaphore<>, 3, 1, 5, 2>, 1, 2, 0.3, 0.3, 1, focus, nullptr, nullptr},
-        {"sem_2x2", sem_tasks<pika::counting_semaphore<>, 2, 2, 3, 1>, 1, 2, 0.15, 0.2, 1, focus, nullptr, nullptr},
+        {"sem_3x1", sem_tasks<pika::counting_semaphore<>, 3, 1, 5, 2>, 1, 2, 0.25, 0.25, 1, focus, nullptr, nullptr},
+        {"sem_2x2", sem_tasks<pika::counting_semaphore<>, 2, 2, 3, 1>, 1, 2, 0.15, 0.15, 1, focus, nullptr, nullptr},
+        {"sem_two_blocked", sem_two_blocked<pika::counting_semaphore<>>, 1, 2, 0.1, 0.1, 1, focus, nullptr, nullptr},
         {"binary_2x1", sem_tasks<pika::binary_semaphore<>, 2, 1, 5, 1>, 1, 2, 0.05, 0.05, 1, focus, nullptr, nullptr},
-        {"sliding_2", sliding_tasks<2>, 1, 2, 0.2, 0.2, 1, "F-addr: sliding_semaphore (lower_limit_, max_difference_, spinlock, queue) + thread_data", nullptr, nullptr},
+        {"sliding_2", sliding_tasks<2>, 1, 2, 0.15, 0.2, 1, "F-addr: sliding_semaphore (lower_limit_, max_difference_, spinlock, queue) + thread_data", nullptr, nullptr},
         {"sem_os_3", sem_os<pika::counting_semaphore<>, 3, 4, 2>, 1, 3, 0.05, 0.07, 1, "F-addr: semaphore; all pthread lock/cond operations of the default agent", nullptr, nullptr},
     };
     static const char* assumptions[] = {"sequentially consistent interleavings only", "2 worker threads; 2-3 tasks; 1-2 operations each", "timed acquires: 50 ms virtual deadline; 'deadline passes here' is an explorer deviation"};
